@@ -10,7 +10,14 @@ for c in $commits; do
   case "$msg" in fix:*) ;; *) echo "SKIP non-fix commit $c: $msg"; continue;; esac
   if ! git cherry-pick $c >/dev/null 2>&1; then echo "CONFLICT cherry-picking $c: $msg"; git status --short | head; exit 3; fi
   echo "picked $(git rev-parse --short HEAD) <- $(git rev-parse --short $c) $msg"
+  echo "$(git rev-parse --short $c) $(git rev-parse --short HEAD)" >> /tmp/w/hashmap.txt
 done
 /venv/bin/python -m pytest -q -p no:cacheprovider --timeout=900 tests 2>&1 | tail -1
 cd /verif || exit 2
 git merge --no-edit b-$n 2>&1 | tail -3
+# rewrite the agents' commit hashes to the cherry-picked ones
+if [ -f /tmp/w/hashmap.txt ]; then
+  while read old new; do
+    grep -rl --include='*.txt' --include='*.md' --include='*.json' --include='*.py' --include='*.v' "$old" KNOWN_FINDINGS.txt design manifest.d harness coq/theories coq/props 2>/dev/null | xargs -r sed -i "s/$old/$new/g"
+  done < /tmp/w/hashmap.txt
+fi
